@@ -4,6 +4,8 @@ package ledger
 // live in other packages (api/bulking, controller/system).
 
 import (
+	"errors"
+
 	ledger "github.com/formancehq/ledger/internal"
 )
 
@@ -38,8 +40,65 @@ func (db *mDB) VerifLastLogID() uint64 {
 	}
 	return 0
 }
-func (db *mDB) VerifState() string         { return db.state }
-func (db *mDB) VerifSetState(s string)     { db.state = s; db.ledger.State = s }
+func (db *mDB) VerifState() string         { return db.committed.ledgerState }
+func (db *mDB) VerifSetState(s string)     { db.committed.ledgerState = s; db.ledger.State = s }
+
+// the statements the ledger state tracker issues on the *bun.Tx / connection it holds, as the store model sees them
+
+// VerifTxSetInUse: UPDATE _system.ledgers SET state = 'in-use' WHERE id = ? AND state = 'initializing', inside the SQL
+// transaction the current thread began last; returns the number of rows affected.
+func (db *mDB) VerifTxSetInUse() (int64, error) {
+	s := db.txOfThread[verifThreadID()]
+	if s == nil || s.tx == nil || s.tx.done {
+		return 0, errors.New("sql: no open transaction")
+	}
+	if err := s.enter("UpdateLedgerState"); err != nil {
+		return 0, err
+	}
+	s.refresh()
+	if s.state().ledgerState != ledger.StateInitializing {
+		return 0, nil
+	}
+	s.apply(func(st *mState) { st.ledgerState = ledger.StateInUse })
+	return 1, nil
+}
+
+// VerifTxSetval: SELECT setval(<sequence>, (SELECT max(id) FROM <table> WHERE ledger = ..)) in that transaction
+// (sequence changes are not transactional).
+func (db *mDB) VerifTxSetval(transactions bool) error {
+	s := db.txOfThread[verifThreadID()]
+	if s == nil || s.tx == nil || s.tx.done {
+		return errors.New("sql: no open transaction")
+	}
+	if err := s.enter("Setval"); err != nil {
+		return err
+	}
+	s.refresh()
+	var max uint64
+	if transactions {
+		for _, t := range s.state().txs {
+			if t.ID != nil && *t.ID > max {
+				max = *t.ID
+			}
+		}
+		if max > 0 { // setval is strict: on an empty table its argument is NULL, it returns NULL and leaves the sequence alone
+			db.txSeq = max
+		}
+		return nil
+	}
+	for _, l := range s.state().logs {
+		if l.ID != nil && *l.ID > max {
+			max = *l.ID
+		}
+	}
+	if max > 0 {
+		db.logSeq = max
+	}
+	return nil
+}
+
+// VerifReadState: SELECT state FROM _system.ledgers WHERE id = ? on a plain connection (READ COMMITTED)
+func (db *mDB) VerifReadState() string { return db.committed.ledgerState }
 func (db *mDB) VerifSeqs() (uint64, uint64) { return db.txSeq, db.logSeq }
 func (db *mDB) VerifSetSeqs(tx, log uint64) { db.txSeq, db.logSeq = tx, log }
 
@@ -53,3 +112,73 @@ func (l *recListener) VerifCommittedLogsAt(i int) int {
 }
 
 func VerifPostingsEqual(a, b ledger.Postings) bool { return postingsEqual(a, b) }
+
+// VerifNewDB: a fresh ledger (state initializing, no row, sequences at 0)
+func VerifNewDB(name string, id int) *mDB {
+	l := mkLedger(name, id, nil)
+	l.State = ledger.StateInitializing
+	return newMDB(l)
+}
+
+func (db *mDB) VerifSetConcurrent(on bool) { db.concurrent = on }
+
+// VerifMaxIDs: the greatest committed transaction and log ids
+func (db *mDB) VerifMaxIDs() (tx, log uint64) {
+	for _, t := range db.committed.txs {
+		if t.ID != nil && *t.ID > tx {
+			tx = *t.ID
+		}
+	}
+	for _, l := range db.committed.logs {
+		if l.ID != nil && *l.ID > log {
+			log = *l.ID
+		}
+	}
+	return
+}
+
+func VerifPosting(src, dst, asset, amount string) ledger.Posting { return P(src, dst, asset, amount) }
+
+// VerifCreate: a postings request as the API builds it
+func VerifCreate(ps ...ledger.Posting) Parameters[CreateTransaction] {
+	data := ledger.NewTransactionData().WithPostings(ps...)
+	return Parameters[CreateTransaction]{Input: CreateTransaction{RunScript: TxToScriptData(data, false)}}
+}
+
+// VerifRunAllOps: every write request of the operation list, in order, on top of the current history (failures are
+// part of a history too): reverts (plain, at effective date, forced), metadata writes and deletes, a schema insert ...
+func VerifRunAllOps(ctrl Controller) int {
+	ok := 0
+	// a revert at the effective date of a transaction that is not reverted otherwise (its revert carries the
+	// reverted transaction's timestamp, not the instant of the revert)
+	if _, _, _, err := ctrl.RevertTransaction(bg, Parameters[RevertTransaction]{Input: RevertTransaction{TransactionID: 3, AtEffectiveDate: true}}); err == nil {
+		ok++
+	} else {
+		panic("history: the effective-date revert of transaction 3 failed: " + err.Error())
+	}
+	for _, o := range makeOps(false) {
+		if r := o.run(ctrl, false, ""); r.err == nil {
+			ok++
+		}
+	}
+	return ok
+}
+
+// VerifStateDiffImport: the relation a copy made by export + import must satisfy: everything observable, time stamps
+// included (an import writes the recorded instants), except the rows' own insertion / update stamps of accounts
+// (set when the copy is written).
+func VerifStateDiffImport(a, b *mDB) string {
+	if d := stateDiff(a.committed, b.committed, false); d != "" {
+		return d
+	}
+	if len(a.committed.logs) != len(b.committed.logs) {
+		return "logs"
+	}
+	for i := range a.committed.logs {
+		x, y := a.committed.logs[i], b.committed.logs[i]
+		if *x.ID != *y.ID || x.Type != y.Type || x.IdempotencyKey != y.IdempotencyKey || !x.Date.Equal(y.Date) || x.SchemaVersion != y.SchemaVersion {
+			return "logs"
+		}
+	}
+	return ""
+}
